@@ -512,9 +512,10 @@ fn configs(prop: &str, thorough: bool) -> Vec<(Cfg, Option<usize>)> {
                     c.send_amounts = vec![1];
                     c.proper = vec![Base::Tok(T1), Base::Tok(T2), Base::Tok(N0)];
                     // an empty packet still issues a payout sub-call for a denom the channel tracks; offered
-                    // in the configurations that start with a default (the smaller ones): zero-amount
+                    // in the smaller configurations that start with a default and a listed token (thorough: one of them): zero-amount
                     // payouts leave extra zero entries in the stores, which multiplies the state space
-                    c.recv_amounts = if dflt.is_some() && !allow.is_empty() { vec![0, 1] } else { vec![1] };
+                    let zero = dflt.is_some() && !allow.is_empty() && (!thorough || *an == "allow[T1:unlimited]");
+                    c.recv_amounts = if zero { vec![0, 1] } else { vec![1] };
                     c.receivers = vec![Rcv::User(B)];
                     c.raws = vec![];
                     c.ack_kinds = vec![AckKind::Error];
